@@ -438,7 +438,9 @@ def main():
           # scalar attributes, in particular values that are "falsy" in Python (0.0, None, False) where the default is not
           ("azimuth_in_degrees", 0.0), ("ppth_percentile_for_rotdpp_computation", 0.0), ("window_length_in_seconds", None),
           ("detrend", None), ("differentiate", True), ("orient_to_degrees_from_north", None), ("ignore_dissimilar_time_step_warning", True),
-          ("handle_dissimilar_time_steps_by", "keeping_smallest_time_step"), ("method_to_combine_horizontals", "squared_average")]
+          ("handle_dissimilar_time_steps_by", "keeping_smallest_time_step"), ("method_to_combine_horizontals", "squared_average"),
+          # the name the user chose is content: synonyms of a technique are different attribute values
+          ("method_to_combine_horizontals", "quadratic_mean"), ("method_to_combine_horizontals", "vector_summation")]
     k_ = 0
     for c in CLASSES:
         params = inspect.signature(getattr(h, c).__init__).parameters
